@@ -69,7 +69,7 @@ Clause(name, ok, tag, k) == ok \/ PrintT(<<"VIOL", name, k, tag>>)
 G0 == [tr |-> -1, brought |-> 0, taken |-> 0, banks |-> <<>>, bankIds |-> {}, lastGc |-> 0, gids |-> {}, handLive |-> FALSE,
        handIds |-> <<>>, openBank |-> <<>>, openBlind |-> <<>>, openLabels |-> <<>>, lastParts |-> {}, afterBank |-> <<>>, afterIds |-> {},
        missed |-> <<>>, missedIds |-> {}, ext |-> FALSE, extSetup |-> FALSE, openWin |-> {}, botCalls |-> {}, leavePending |-> {}, awaitFire |-> FALSE, blindSinceFire |-> FALSE, ansIds |-> {}, prevAns |-> {}, earlyAns |-> {}, heldAnswered |-> FALSE, closedBetween |-> FALSE, lastStatus |-> "none",
-       cnt |-> <<>>, cntIds |-> {}, actEvents |-> <<>>, spyCalls |-> <<>>, inGate |-> "", blindSet |-> <<>>, blindSetInGate |-> FALSE,
+       cnt |-> <<>>, cntIds |-> {}, actEvents |-> <<>>, spyCalls |-> <<>>, inGate |-> "", blindSet |-> <<>>, blindSetInGate |-> FALSE, blindInOpenWin |-> FALSE, createSeen |-> TRUE, createBlind |-> <<>>,
        leftSince |-> {}, faults |-> 0, lastUpd |-> 0, kfMidLeave |-> FALSE,
        withholdSt |-> <<>>, settledSt |-> <<>>, openSt |-> <<>>, callQ |-> <<>>, pubH |-> <<>>, nospy |-> FALSE, ownTid |-> "", engineHand |-> <<>>, engineStatus |-> "none", lastGcSeen |-> 0, enginePlayers |-> 0, autoFails |-> 0, errEvents |-> 0, autoOwed |-> 0, afterFire |-> FALSE, fireSt |-> <<>>]
 
@@ -106,7 +106,9 @@ Upd(gg, k) ==
                              !.closedBetween = @ \/ (t.ev \in {"ret:CloseTable", "ret:ReleaseTable"} /\ ~g1.handLive)]
         ELSE IF t.ev = "ret:SetUpTableGame" /\ t.res = "ok"    \* the competition layer replaced the engine's own set-up by one that cannot open a hand
              THEN [g1 EXCEPT !.extSetup = @ \/ Cardinality(Range(t.a.ids) \cap AliveInIds(st)) < 2]
-        ELSE IF t.ev = "ret:UpdateBlind" /\ t.res = "ok" THEN [g1 EXCEPT !.blindSet = t.a.blind, !.blindSetInGate = (g1.inGate # ""), !.blindSinceFire = TRUE]
+        ELSE IF t.ev = "ret:UpdateBlind" /\ t.res = "ok" THEN [g1 EXCEPT !.blindSet = t.a.blind, !.blindSetInGate = (g1.inGate # ""), !.blindSinceFire = TRUE,
+                                                                          !.blindInOpenWin = @ \/ (g1.handLive /\ ~g1.createSeen)]
+        ELSE IF t.ev = "spy" /\ t.a.kind = "create" /\ t.res = "ok" THEN [g1 EXCEPT !.createSeen = TRUE, !.createBlind = t.a.blind]
         ELSE IF t.ev = "parked" THEN [g1 EXCEPT !.inGate = t.a.kind]
         ELSE IF t.ev = "released" THEN [g1 EXCEPT !.inGate = ""]
         ELSE g1
@@ -132,7 +134,7 @@ Upd(gg, k) ==
         ELSE
         LET gA == IF IsOpenSnap(t)
                   THEN [g3 EXCEPT !.lastGc = st.gc, !.handLive = TRUE, !.handIds = GpiIds(st), !.openBank = Banks(st),
-                                  !.openBlind = st.blind, !.lastParts = PartIds(st), !.openSt = <<st>>, !.cnt = <<>>, !.cntIds = {}, !.leftSince = {}, !.settledSt = <<>>,
+                                  !.openBlind = st.blind, !.blindInOpenWin = FALSE, !.createSeen = FALSE, !.createBlind = <<>>, !.lastParts = PartIds(st), !.openSt = <<st>>, !.cnt = <<>>, !.cntIds = {}, !.leftSince = {}, !.settledSt = <<>>,
                                   !.kfMidLeave = @ \/ (g3.leavePending \cap Range(GpiIds(st)) # {}),
                                   !.openLabels = [id \in Ids(st) |-> P(st, id).pos], 
                                   !.missed = [id \in Ids(st) |->
@@ -493,13 +495,22 @@ C13_courseBySuccessfulSteps(t, gg) == (HasPubStep(t, gg) /\ gg.faults > 0) => Pu
 C13_autoFailReported(t, gg) == (t.ev = "end" /\ gg.autoFails > 0) => (gg.errEvents >= gg.autoFails /\ gg.autoOwed = 0)
 
 \* ---------------------------------------------------------------- C12
+\* "those in force at the moment it opened".  A level change that arrives between the publication of the opened table and the
+\* creation of the hand (from the application's own listener of the opened event) falls into that moment: the hand may go by
+\* the level before or after it -- but what it charges, what it publishes and what the hand engine got must be ONE level.
+OB4(b) == <<b[2], b[3], b[4], b[5]>>
 C12_createAtOpenBlind(t, gg) ==
   (t.ev = "spy" /\ t.a.kind = "create" /\ t.res = "ok" /\ Len(gg.openBlind) = 5) =>
-    t.a.blind = <<gg.openBlind[2], gg.openBlind[3], gg.openBlind[4], gg.openBlind[5]>>
+    IF gg.blindInOpenWin /\ Len(gg.blindSet) = 5 THEN t.a.blind \in {OB4(gg.openBlind), OB4(gg.blindSet)}
+    ELSE t.a.blind = OB4(gg.openBlind)
 C12_gameBlind(t, gg) ==
   (Trusty(t) /\ gg.handLive /\ HasHand(t.st) /\ t.st.status \in {"table_game_playing", "table_game_settled"} /\ Len(gg.openBlind) = 5) =>
-    /\ t.st.gblind = gg.openBlind
-    /\ H(t.st).ante = gg.openBlind[2] /\ H(t.st).bl = <<gg.openBlind[3], gg.openBlind[4], gg.openBlind[5]>>
+    IF gg.blindInOpenWin
+    THEN (Len(gg.createBlind) = 4 /\ Len(t.st.gblind) = 5) =>
+           /\ OB4(t.st.gblind) = gg.createBlind
+           /\ <<H(t.st).ante, H(t.st).bl[1], H(t.st).bl[2], H(t.st).bl[3]>> = gg.createBlind
+    ELSE /\ t.st.gblind = gg.openBlind
+         /\ H(t.st).ante = gg.openBlind[2] /\ H(t.st).bl = <<gg.openBlind[3], gg.openBlind[4], gg.openBlind[5]>>
 C12_updateSticks(t, gg) == (Trusty(t) /\ Len(gg.blindSet) = 5) => t.st.blind = gg.blindSet
 \* when the level is a break as the continue handler runs, the table pauses (the break case of C08_pauseIff)
 C12_breakPauses(t, gg) ==
